@@ -138,6 +138,33 @@ def generated_profile():
     return t, shapes
 
 
+GEN_STACK = {
+    # a host that sorts BEFORE the profile it stacks (X: exec transitions are kept), and the stacked profile with fallback
+    # rules at its top level and inside a sub-profile
+    'apparmor.d/groups/apps/verif-c17-aaa': 'abi <abi/4.0>,\n\ninclude <tunables/global>\n\n@{exec_path} = @{bin}/verif-c17-aaa\nprofile verif-c17-aaa @{exec_path} {\n  include <abstractions/base>\n\n'
+                                            '  @{exec_path} mr,\n  @{bin}/verif-st-own rPUx,\n\n  #aa:stack X verif-c17-zzz\n\n  include if exists <local/verif-c17-aaa>\n}\n',
+    'apparmor.d/groups/apps/verif-c17-zzz': 'abi <abi/4.0>,\n\ninclude <tunables/global>\n\n@{exec_path} = @{bin}/verif-c17-zzz\nprofile verif-c17-zzz @{exec_path} {\n  include <abstractions/base>\n\n'
+                                            '  @{exec_path} mr,\n  @{bin}/verif-st-a rPUx,\n  @{bin}/verif-st-b  rUx,\n  @{bin}/verif-st-sub rCx -> sub,\n\n  profile sub {\n    include <abstractions/base>\n\n'
+                                            '    @{bin}/verif-st-c rPUx,\n\n    include if exists <local/verif-c17-zzz_sub>\n  }\n\n  include if exists <local/verif-c17-zzz>\n}\n',
+}
+
+
+def check_stacked(ex, cfgF, treeF, fnd, ev, stats):
+    """the rules a stack directive pastes into a host are rules of the built host: no unconfined fallback there either"""
+    name = 'apparmor.d/verif-c17-aaa'
+    if name not in treeF:
+        fnd.report('generated-profile-not-built', '%s: the synthetic stack host is missing from the build' % cfgx.tag(cfgF), {'config': cfgF._asdict()}); return
+    rules = [x for x in file_rules(ex.text(treeF[name])) if '/verif-st-' in x[0] and x[0] != '@{bin}/verif-st-sub']
+    if len(rules) != 4:
+        raise SystemExit('HARNESS ERROR: expected 4 verif-st rules in the built stack host, found %s' % [x[4] for x in rules])
+    for x in rules:
+        ev.add(transitions=1); stats['generated_checked'] += 1
+        m = scan.EXEC_RE.findall(x[1])
+        if not (len(m) == 1 and 'u' not in m[0].lower() and 'p' in m[0].lower()):
+            fnd.report('fallback-kept stacked-rule path=%s' % x[0], 'full build %s: the stack host verif-c17-aaa carries `%s` (pasted from verif-c17-zzz, which is built after it)' % (cfgx.tag(cfgF), x[4].strip()),
+                       {'config': cfgF._asdict(), 'file': 'verif-c17-aaa', 'rule': x[4]})
+
+
 def check_generated(ex, cfgF, treeN, treeF, shapes, fnd, ev, stats):
     name = 'apparmor.d/verif-c17'
     if name not in treeF or name not in treeN:
@@ -169,7 +196,7 @@ def run(tier):
         fulls = [c for c in cfgx.all_configs() if c.full]
     else:
         fulls = [cfgx.Cfg(d, a, v, 'complain', True) for d in cfgx.DISTS for a, v in ((4, '4.1'), (3, '3.0'))]
-    ex = cfgx.Explorer(extra_src={GEN_FILE: gen_text})
+    ex = cfgx.Explorer(extra_src=dict(GEN_STACK, **{GEN_FILE: gen_text}))
     try:
         normals = sorted({c._replace(full=False) for c in fulls})
         trees = ex.build_all(fulls + normals)
@@ -179,6 +206,7 @@ def run(tier):
     for c in fulls:
         check_pair(ex, S, c, trees[c._replace(full=False)], trees[c], fnd, ev, stats)
         check_generated(ex, c, trees[c._replace(full=False)], trees[c], shapes, fnd, ev, stats)
+        check_stacked(ex, c, trees[c], fnd, ev, stats)
     ev.add(states=len(fulls) + len(normals), source_rules=len(S), generated_rule_shapes=len(shapes), configurations=len(fulls), **stats)
     ev.add(traces_validated_against_impl=ev.cov['transitions'])
     ev.add(rule='state = one build tree of the real prebuild; transition = one (source rule, full configuration) pair looked up in the built text')
